@@ -45,6 +45,16 @@ def bgd_cases_from_export(exported, quick):
     for i, e in enumerate(exported):
         d = e["decls"]
         cases.append({"id": "bgd-%05d" % i, "family": "bgd-export", "S": bgd_shader(d), "opts": opts()})
+        if i % 8 == 5:
+            # a declaration-only module: no entry point at all
+            T = bgd_shader(d)
+            T["entries"] = []
+            cases.append({"id": "bgd-%05d-ne" % i, "family": "bgd-export-no-entry-point", "S": T, "opts": opts(validate=("none", "all")[(i // 8) % 2])})
+        if i % 8 == 6:
+            # only every other variable is used, with and without the validator
+            T = bgd_shader(d, use=True)
+            T["entries"][0]["body"] = T["entries"][0]["body"][::2]
+            cases.append({"id": "bgd-%05d-pu" % i, "family": "bgd-export-partly-used", "S": T, "opts": opts(validate=("none", "all")[(i // 8) % 2])})
         if i % 4 == 3:
             # validator on, but no entry point uses the variables: the validator itself does not look at unused variables
             cases.append({"id": "bgd-%05d-vu" % i, "family": "bgd-export-validated-unused", "S": bgd_shader(d), "opts": opts(validate="all")})
